@@ -16,6 +16,24 @@ import (
 // it stops moving.
 var Heartbeat atomic.Uint64
 
+// ForeignHookCalls counts hook calls that came from a goroutine other than
+// the task (or, outside the scheduler, the goroutine) that issued the query:
+// the library under test started goroutines of its own.  Their interleaving
+// is not under the simulator's control, so runs of such code need not be
+// repeatable; the driver reports that instead of calling it harness trouble.
+var ForeignHookCalls atomic.Int64
+
+// MainHooks returns hooks for executions that are not scheduled (histories on
+// one goroutine): they do nothing but notice calls from other goroutines.
+func MainHooks() func(string, any, int64) {
+	me := getg()
+	return func(string, any, int64) {
+		if getg() != me {
+			ForeignHookCalls.Add(1)
+		}
+	}
+}
+
 // Points known to the scheduler.  The order is part of the trace hash, so
 // only ever append.
 var pointNames = []string{
@@ -116,7 +134,8 @@ type task struct {
 	panicked bool
 	panicVal string
 
-	goid string // runtime goroutine id, for the blocked-state test of speculate
+	goid string  // runtime goroutine id, for the blocked-state test
+	g    uintptr // goroutine identity, to tell the task from goroutines it spawns
 
 	// self-probe command and answer (see selfProbe)
 	cmdProbe bool
@@ -130,6 +149,12 @@ type task struct {
 	holds    int // locks this task holds according to the hook events
 	finished chan struct{}
 }
+
+//go:norace
+func (t *task) setIdentity(goid string, g uintptr) { t.goid, t.g = goid, g }
+
+//go:norace
+func (t *task) goroutineID() string { return t.goid }
 
 // TaskCtx is handed to task bodies.
 type TaskCtx struct {
@@ -285,6 +310,12 @@ func (s *Sched) yieldHook(point string, obj any, n int64) {
 		return
 	}
 	t := s.cur
+	if getg() != t.g {
+		// a goroutine spawned by the library inside a query: it belongs to
+		// the running task's step and is not scheduled on its own
+		ForeignHookCalls.Add(1)
+		return
+	}
 	if point == "auto.lock" || point == "auto.rlock" {
 		// astyield passes &recv; the receiver variable belongs to this
 		// task, so it is dereferenced here, on the task's own goroutine:
@@ -314,6 +345,9 @@ func (s *Sched) noteHook(point string, obj any) {
 		return
 	}
 	t := s.cur
+	if getg() != t.g {
+		return
+	}
 	if t.nn >= len(t.notes) {
 		panic("verifsim: note overflow")
 	}
@@ -377,7 +411,7 @@ func (s *Sched) Run(bodies []func(t *TaskCtx)) *RunResult {
 		s.tasks[i] = t
 		wg.Add(1)
 		go func() {
-			t.goid = curGoid()
+			t.setIdentity(curGoid(), getg())
 			s.Gate.Park(t.id)
 			if s.cancelled() {
 				s.taskExit(t, nil)
@@ -944,7 +978,7 @@ func (s *Sched) waitTask(t *task) bool {
 				return true
 			default:
 			}
-			if blockedState(goroutineState(t.goid)) {
+			if blockedState(goroutineState(t.goroutineID())) {
 				// "chan receive" would also be our own Park, but Park is
 				// always preceded by the notification just looked for
 				select {
@@ -962,7 +996,7 @@ func (s *Sched) waitTask(t *task) bool {
 				g.WaitNotify()
 				return true
 			}
-			if blockedState(goroutineState(t.goid)) {
+			if blockedState(goroutineState(t.goroutineID())) {
 				strikes++
 				if strikes >= 2 && !pollIn(g.schedR, 0) {
 					return false
@@ -1040,7 +1074,7 @@ func (s *Sched) abandon(unfinished int, blocked *task) bool {
 			if s.taskDone(t) {
 				continue
 			}
-			st := goroutineState(t.goid)
+			st := goroutineState(t.goroutineID())
 			if !(strings.HasPrefix(st, "sync.") || strings.HasPrefix(st, "semacquire")) {
 				all = false
 				break
